@@ -22,13 +22,20 @@ pub struct Streams {
 
 impl Streams {
     pub fn new() -> Self {
-        Streams {
+        // coqc start-up dominates the cost of a shard of tiny cases, so the exhaustive streams use big shards
+        let mut s = Streams {
             build: Stream::new("build", REQ, "chk_from_slice", "list N", "outcome seg"),
             query: Stream::new("query", REQ, "chk_seg_query", "seg * list N", "seg_query_out"),
             segop: Stream::new("segop", REQ, "chk_seg_op", "seg * segop", "outcome seg"),
             seqop: Stream::new("seqop", REQ, "chk_seq_op", "rseq * seqop", "outcome seqres"),
             rechunk: Stream::new("rechunk", REQ, "chk_rechunk", "list rseq * list N * bool", "outcome (list rseq)"),
-        }
+        };
+        s.build.shard = 1500;
+        s.query.shard = 600;
+        s.segop.shard = 3000;
+        s.seqop.shard = 3000;
+        s.rechunk.shard = 300;
+        s
     }
 }
 
@@ -249,7 +256,7 @@ pub fn case_segop(sink: &mut Sink, st: &mut Streams, sg: &Sg, op: &SegOp, oracle
             l.push(*v);
             known_class(&l)
         }
-        _ => None,
+        _ => known_class(&ids).or(if wide_span(&ids) { Some(CLASS_SPAN) } else { None }),
     };
     match (&r, expect) {
         (Ok(Ok(s)), Some(exp)) => {
@@ -569,14 +576,9 @@ pub fn corpus(sink: &mut Sink, st: &mut Streams) {
     case_build(sink, st, "corpus-ut", &[7000, 1, 24000]);
 }
 
-/// exhaustive small universe: ids <= max_id, length <= max_len; all slices, deletions, masks
-pub fn exhaustive(sink: &mut Sink, st: &mut Streams, max_id: u64, max_len: usize, sorted_n: u32, transforms: &[(u64, u64)]) {
-    let lists = small_lists(max_id, max_len);
-    sink.notes.push(format!(
-        "exhaustive: all {} duplicate-free lists over ids 0..={} of length <= {} (and all {} subsets of 0..{}): from_slice, accessors, every slice, every deletion subset, every position mask, every allow-mask for mask_to_offset_ranges; the same lists under {} affine id maps",
-        lists.len(), max_id, max_len, 1u64 << sorted_n, sorted_n, transforms.len()
-    ));
-    for l in &lists {
+/// exhaustive small universe: every slice, deletion subset, position mask and allow-mask of every list
+pub fn exhaustive_lists(sink: &mut Sink, st: &mut Streams, lists: &[Vec<u64>], max_id: u64, seq_level: bool, all_selects: bool) {
+    for l in lists {
         let Some(sg) = case_build(sink, st, "exh-small", l) else { continue };
         let probes: Vec<u64> = (0..=max_id + 1).collect();
         case_query(sink, st, &sg, &probes);
@@ -594,11 +596,14 @@ pub fn exhaustive(sink: &mut Sink, st: &mut Streams, max_id: u64, max_len: usize
         case_segop(sink, st, &sg, &SegOp::NewHigh(max_id + 1), true);
         case_segop(sink, st, &sg, &SegOp::NewHigh(max_id + 3), true);
         case_segop(sink, st, &sg, &SegOp::NewHigh(max_id / 2), true);
+        if !seq_level || l.is_empty() {
+            continue;
+        }
         // the same list split in two segments: sequence-level ops over all masks
-        for cut in 0..=l.len() {
-            if l.len() < 2 && cut > 0 {
-                continue;
-            }
+        let mut cuts = vec![1usize.min(l.len()), l.len() - 1, l.len()];
+        cuts.sort_unstable();
+        cuts.dedup();
+        for cut in cuts {
             let (a, b) = l.split_at(cut);
             let (Some(sa), Some(sb)) = (natural_seg(a), natural_seg(b)) else { continue };
             let q = vec![sa, sb];
@@ -619,12 +624,21 @@ pub fn exhaustive(sink: &mut Sink, st: &mut Streams, max_id: u64, max_len: usize
                 }
             }
             case_seqop(sink, st, &q, &SeqOp::Get((0..=n).collect()), true);
-            for sel in subsets_of(&(0..=n).collect::<Vec<_>>()) {
-                case_seqop(sink, st, &q, &SeqOp::Select(sel), true);
+            if all_selects {
+                for sel in subsets_of(&(0..=n).collect::<Vec<_>>()) {
+                    case_seqop(sink, st, &q, &SeqOp::Select(sel), true);
+                }
+            } else {
+                case_seqop(sink, st, &q, &SeqOp::Select((0..=n).collect()), true);
+                case_seqop(sink, st, &q, &SeqOp::Select((0..=n + 1).step_by(2).collect()), true);
+                case_seqop(sink, st, &q, &SeqOp::Select(vec![n.saturating_sub(1), n + 2]), true);
             }
         }
     }
-    // all sorted subsets (any length) of a slightly larger universe, and their images under affine maps
+}
+
+/// all sorted subsets (any length) of 0..n, and their images under affine id maps
+pub fn exhaustive_subsets(sink: &mut Sink, st: &mut Streams, sorted_n: u32, transforms: &[(u64, u64)]) {
     for l in subsets(sorted_n) {
         for (base, stride) in transforms {
             let Some(t) = affine(&l, *base, *stride) else { continue };
@@ -809,10 +823,19 @@ pub fn run(args: &Args, sink: &mut Sink, st: &mut Streams) {
         (u64::MAX - 13, 1),
         (3, (1u64 << 62) / 8),
     ];
+    let (max_id, max_len, sorted_n) = if args.thorough() { (6u64, 5usize, 13u32) } else { (5, 4, 10) };
+    let lists = small_lists(max_id, max_len);
+    sink.notes.push(format!(
+        "exhaustive: all {} duplicate-free lists over ids 0..={} of length <= {}: from_slice, accessors, every slice, every deletion subset, every position mask, with_new_high; split in two segments: every allow-mask for mask_to_offset_ranges, every position mask, every deletion, every slice; all {} subsets of 0..{} under {} affine id maps (boundaries 2^16, 2^32, 2^62, 2^64): from_slice",
+        lists.len(), max_id, max_len, 1u64 << sorted_n, sorted_n, transforms.len()
+    ));
+    exhaustive_lists(sink, st, &lists, max_id, true, args.thorough());
     if args.thorough() {
-        exhaustive(sink, st, 7, 5, 13, &transforms);
-    } else {
-        exhaustive(sink, st, 5, 4, 10, &transforms);
+        // DESIGN X: ids <= 12, length <= 5, all masks - for the increasing lists (the unsorted ones are covered above up to id 6)
+        let wide: Vec<Vec<u64>> = subsets(13).into_iter().filter(|l| l.len() <= 5 && l.iter().any(|x| *x > max_id)).collect();
+        sink.notes.push(format!("exhaustive: all {} increasing lists over ids 0..=12 of length <= 5 not covered above: every slice/deletion/mask", wide.len()));
+        exhaustive_lists(sink, st, &wide, 12, false, false);
     }
+    exhaustive_subsets(sink, st, sorted_n, &transforms);
     random(sink, st, &mut rng, args.vol(250, 4000), args.vol(120, 2000), args.vol(300, 600) as u64);
 }
